@@ -6,7 +6,7 @@ extension.go, mpls.go, interface.go) and of ipv4/header.go (Linux field order).
 Bytes are `Nat` < 256 in `List Nat`. Go `int` fields are `Int`; the narrowing
 conversions `byte(x)`, `uint16(x)`, `uint32(x)` are `x % 2^k` (Euclidean, so
 negative values wrap as in Go). `checksum` is modelled with its `uint32`
-accumulator (every addition reduced mod 2^32) and its two folds.
+accumulator (additions reduced mod 2^32, with the end-around carry the code applies) and its two folds.
 Not modelled: slice aliasing (`RawBody.Marshal` returns the caller's slice),
 `InterfaceInfo` marshalling with names longer than 63 bytes or IPv4-mapped
 addresses, non-Linux field orders of `ipv4.Header`, control messages.
@@ -64,10 +64,15 @@ def copyAt (b : List Nat) (off : Nat) (src : List Nat) : List Nat :=
 
 /-! ### checksum -/
 
-/-- The loop of `checksum`: little-endian 16-bit words added into a `uint32`. -/
+/-- `s += w; if s < w { s++ }` on `uint32`: addition with end-around carry. -/
+def addCarry (s w : Nat) : Nat :=
+  let t := (s + w) % 4294967296
+  if t < w then (t + 1) % 4294967296 else t
+
+/-- The loop of `checksum`: little-endian 16-bit words added into a `uint32` with end-around carry. -/
 def sumWords : Nat → List Nat → Nat
-  | s, a :: b :: rest => sumWords ((s + (b * 256 + a)) % 4294967296) rest
-  | s, [a] => (s + a) % 4294967296
+  | s, a :: b :: rest => sumWords (addCarry s (b * 256 + a)) rest
+  | s, [a] => addCarry s a
   | s, [] => s
 
 /-- `s = s>>16 + s&0xffff; s = s + s>>16; uint16(s)`. -/
@@ -236,6 +241,16 @@ def marshalMultipart (proto : Nat) (withOrig : Bool) (data : List Nat) (exts : L
       else b
     else b
   else b
+
+/-- The range check of `marshalMultipartMessageBody`: with extensions and an original datagram, the
+length attribute (32-bit words for ICMPv4, 64-bit words for ICMPv6) must fit one octet. -/
+def lengthAttrOK (proto : Nat) (data : List Nat) (exts : List Ext) : Bool :=
+  if exts.length > 0 then
+    let dataLen := (multipartLens proto true data exts).2
+    if proto = protocolICMP then decide (dataLen / 4 ≤ 255)
+    else if proto = protocolIPv6ICMP then decide (dataLen / 8 ≤ 255)
+    else true
+  else true
 
 /-- `validExtensionHeader` (callers guarantee at least 4 bytes). -/
 def validExtensionHeader (b : List Nat) : Bool :=
@@ -407,7 +422,7 @@ def Body.len (proto : Nat) : Body → Nat
 
 def setBytes (b : List Nat) (off : Nat) (src : List Nat) : List Nat := copyAt b off src
 
-/-- `MessageBody.Marshal`; `none` = error (`errInvalidExtension`). -/
+/-- `MessageBody.Marshal`; `none` = error (`errInvalidExtension`, `errInvalidBody`). -/
 def Body.marshal (proto : Nat) : Body → Option (List Nat)
   | .echo id seq data => some (be16 id ++ be16 seq ++ data)
   | .extEchoReq id seq loc exts =>
@@ -422,14 +437,18 @@ def Body.marshal (proto : Nat) : Body → Option (List Nat)
       (if v6 then 1 else 0)])
   | .dstUnreach data exts =>
     let typ := if proto = protocolICMP then v4DstUnreach else v6DstUnreach
-    if !validExtensions proto typ exts then none else some (marshalMultipart proto true data exts)
+    if !validExtensions proto typ exts then none
+    else if !lengthAttrOK proto data exts then none else some (marshalMultipart proto true data exts)
   | .timeExceeded data exts =>
     let typ := if proto = protocolICMP then v4TimeExceeded else v6TimeExceeded
-    if !validExtensions proto typ exts then none else some (marshalMultipart proto true data exts)
+    if !validExtensions proto typ exts then none
+    else if !lengthAttrOK proto data exts then none else some (marshalMultipart proto true data exts)
   | .paramProb pointer data exts =>
     if proto = protocolICMP then
       (if !validExtensions proto v4ParamProb exts then none
+       else if !lengthAttrOK proto data exts then none
        else some ((marshalMultipart proto true data exts).set 0 (u8 pointer)))
+    else if exts.length > 0 then none
     else
       some (copyAt (copyAt (zeros (multipartLens proto true data exts).1) 0 (be32 pointer)) 4 data)
   | .packetTooBig mtu data => some (be32 mtu ++ data)
